@@ -8,7 +8,7 @@ from . import arena, build, tlc
 
 
 from .engines_common import Result  # noqa: E402
-from . import handlers, tok, printf, alloc, threads, p2, sort, norm, mbs, ts  # noqa: E402
+from . import handlers, tok, printf, alloc, threads, p2, sort, norm, mbs, ts, erase  # noqa: E402
 
 
 # --------------------------------------------------------------------------------------
@@ -145,7 +145,7 @@ def run_arena_and_printf(prop, tier, seed, workdir):
     return res
 
 
-ENGINES = {"C13": handlers.run, "C14": tok.run, "C09": printf.run_c09, "C11": printf.run_c11, "C12": threads.run, "C20": alloc.run, "C16": sort.run, "C17": norm.run, "C15": mbs.run, "C19": ts.run}
+ENGINES = {"C13": handlers.run, "C14": tok.run, "C09": printf.run_c09, "C11": printf.run_c11, "C12": threads.run, "C20": alloc.run, "C16": sort.run, "C17": norm.run, "C15": mbs.run, "C19": ts.run, "C18": erase.run}
 for _p in ("C02", "C06", "C07", "C10"):
     ENGINES[_p] = run_arena
 for _p in ("C01", "C03", "C04", "C05", "C08"):
@@ -168,6 +168,8 @@ def replay(prop, path, workdir):
         res = printf.replay(rp, workdir)
         res.violations = [v for v in res.violations if prop in v.get("props", [prop])]
         return res
+    elif rp["kind"] == "erase":
+        return erase.replay(rp, workdir)
     elif rp["kind"] == "ts":
         return ts.replay(rp, workdir)
     elif rp["kind"] == "mbs":
